@@ -2220,7 +2220,7 @@ static void DecodeBit1(Word Index) {
 
                     BAsmCode[CodeLen + 1] += 8;
                     BAsmCode[CodeLen + 3 + AdrCnt]
-                            = EvalStrIntExpression(&ArgStr[2], Int4, &OK);
+                            = EvalStrIntExpression(&ArgStr[2], OpSize ? UInt4 : UInt3, &OK);
                     if (OK) {
                         CodeLen += 4 + AdrCnt;
                     }
